@@ -35,3 +35,20 @@ Example C06_nonvacuous :
   partition cfg (map esc ["[Song]"; "{"; "  Resolution = 192"; "[Events]"; "}"; "[x y]"; "{"; "}"]%string)
   = Ok [(esc "Song"%string, map esc ["  Resolution = 192"; "[Events]"]%string); (esc "x y"%string, [])].
 Proof. vm_compute. reflexivity. Qed.
+
+(** Byte level: on the current configuration, a UTF-8 file with or without a byte-order mark, LF or CRLF, read by
+    path, is parsed as the LF text. *)
+From CP Require Import Base.Utf8 Model.ChartBytes Spec.Utf8Spec Proofs.Utf8Examples.
+Theorem C06_bom_bytes_on_current_source :
+  forall lines want (bom : bool) nl, nl = NL_LF \/ nl = NL_CRLF ->
+    Forall (Forall (fun ch => ch <> CR /\ ch <> LF)) lines ->
+    (match lines with (ch :: _) :: _ => ch <> BOM | _ => True end) ->
+    forallb scalar (concat lines) = true ->
+    from_filepath_bytes cfg ((if bom then UTF8_BOM else []) ++ utf8_encode (join nl lines)) want
+    = from_file cfg (join NL_LF lines) want.
+Proof. intros. apply C06_bom_bytes; assumption. Qed.
+
+Example C06_bytes_nonvacuous :
+  utf8_sig_decode (UTF8_BOM ++ utf8_encode (esc "[Song]"%string ++ [233; 8364; 128512]%N))
+  = Ok (esc "[Song]"%string ++ [233; 8364; 128512]%N).
+Proof. vm_compute. reflexivity. Qed.
